@@ -35,7 +35,9 @@ def run(ctx):
         if bits.min() == bits.max():
             bits[0] = 1 - bits[0]
         nrz = np.kron(bits, np.ones(sps)).astype(float)
-        if BAND[0] == "rc":
+        if BAND[0] == "boxcar":
+            base = np.convolve(nrz, np.ones(sps // 2) / (sps // 2), "same")          # a half-slot moving average: no inter-symbol interference at the eye centre
+        elif BAND[0] == "rc":
             # a causal one-pole response (time constant 0.15 slot): asymmetric pulses, the eye opens late in the slot
             a_, acc, base = 1 - math.exp(-1 / (0.15 * sps)), nrz[0], np.empty_like(nrz)
             for i_, v_ in enumerate(nrz):
@@ -106,6 +108,24 @@ def run(ctx):
                                "dtl": ppm(e2.t_left - e.t_left), "dtr": ppm(e2.t_right - e.t_right), "dto": ppm(e2.t_opt - e.t_opt), "same_i": bool(e2.i == e.i)})
             meta.append(("equiv", (a, b), alpha, beta / d))
             ctx.case(("equiv", sps, int(math.floor(math.log10(alpha))), beta != 0))
+    # noise-free waveforms (sigma = 0 is within "sigma <= 5 %"): every estimate still finite, the threshold strictly between the levels
+    for it in range(24 if T else 8):
+        sps = [16, 32][it % 2]
+        BAND[0] = ["boxcar", "bessel", "rc", "boxcar"][it % 4]
+        RESAMP[0] = [None, 128, None, 64][(it // 2) % 4]
+        a, b = [(0.0, 1.0), (-1.0, 1.0), (0.2, 1.2), (-7.5, -4.5)][(it // 3) % 4]
+        base, nz = synth(sps, "random", 256, 1300 + it, 0.0)
+        d = b - a
+        e = estimate(a + d * base, 80 + it)
+        if finite(e):
+            events.append({"kind": "est", "finite": True, "mu0e": ppm((e.mu0 - a) / d), "mu1e": ppm((e.mu1 - b) / d), "s0": ppm(e.s0 / d), "s1": ppm(e.s1 / d),
+                           "sigma": 0, "thr_in": bool(e.mu0 < e.threshold < e.mu1), "tdist_ppm": ppm(e.t_right - e.t_left),
+                           "topt_mid_ppm": ppm(e.t_opt - (e.t_left + e.t_right) / 2), "i": int(e.i), "i_int": bool(isinstance(e.i, (int, np.integer))), "sps": sps,
+                           "grid": int(RESAMP[0] or sps), "populated": True})
+        else:
+            events.append({"kind": "est", "finite": False})
+        meta.append(("est", (a, b), sps, "noise-free-" + BAND[0]))
+        ctx.case(("est-noise-free", sps, BAND[0], RESAMP[0], a < 0))
     RESAMP[0], BAND[0] = 128, "bessel"
     # two records with the same number of samples but different samples per slot, one after the other (and back)
     for it, seq in enumerate([[(16, 256), (32, 128), (16, 256)], [(8, 512), (32, 128), (16, 256)]] if T else [[(16, 256), (32, 128), (16, 256)]]):
